@@ -1,5 +1,7 @@
 package raft
 
+import "time"
+
 // vh_RV: the RequestVote handler from an arbitrary node state with an arbitrary request (L1).
 // Obligations: C08.* (term/vote monotone, durable, prevote harmless), C02.vote1, C07.restrict,
 // C16.sticky, INV.N3.
@@ -81,6 +83,17 @@ func vh_RV() {
 		vAssert(post.writes == pre.writes, "C16.sticky-no-write")
 		vCover("sticky")
 	}
+
+	// C15.elect (progress): a request that is entitled to the vote gets it - not stale, no fresh leader
+	// contact, vote still free in that term (or a prevote), candidate's log up to date
+	free := vOr(req.Prevote, vOr(req.Term > pre.term, vOr(pre.votedFor == "", pre.votedFor == req.CandidateID)))
+	entitled := vAnd(vAnd(!recent, !leaseValid), vAnd(req.Term >= pre.term, vAnd(free, vUpToDate(req.LastLogTerm, req.LastLogIndex, pre.lastTerm, pre.lastIndex))))
+	vAssert(vImplies(entitled, resp.VoteGranted), "C15.entitled-candidate-gets-the-vote")
+	// a real vote counts as contact: the voter does not start a competing election right away
+	if !req.Prevote {
+		vAssert(vImplies(resp.VoteGranted, time.Since(r.lastContact) < vTimeMargin), "C15|C16.granting-a-vote-resets-the-election-timer")
+	}
+	vAssert(vImplies(!resp.VoteGranted, r.lastContact == pre.lastContact), "C16.refusal-does-not-touch-the-election-timer")
 
 	// the log is never touched by RequestVote
 	vAssert(vAnd(post.logLen == pre.logLen, vAnd(post.lastIndex == pre.lastIndex, post.lastTerm == pre.lastTerm)), "C01|C06.rv-log-untouched")
